@@ -619,12 +619,14 @@ def part_d(report, tier):
         shapes.append(("cached_property used before save", dataclasses.make_dataclass(
             "Cp", [("f0", int), ("f1", str), ("f2", float), ("f3", int)], bases=(base,),
             namespace={"both": functools.cached_property(lambda self: frozenset((self.f0, self.f3)))}), "both"))
+        shapes.append(("kw_only=True", dataclasses.make_dataclass(
+            "Kw", [("f0", int), ("f1", str), ("f2", float), ("f3", int)], bases=(base,), kw_only=True), None))
         for what, cls, touch in shapes:
             if touch:
                 getattr(cls, touch).__set_name__(cls, touch)
             for combo in itertools.product([0, -3], ["", "pcs", " a,b\t"], [0.0, 1.5, -2.25], [0, 7]):
                 n += 1
-                rec = cls(*combo)
+                rec = cls(**dict(zip(("f0", "f1", "f2", "f3"), combo)))
                 if touch:
                     getattr(rec, touch)
                 out = observe(lambda: cls.load(rec.save().rstrip("\r\n")))
@@ -635,9 +637,17 @@ def part_d(report, tier):
                                      {"engine": "seqmc", "part": "derived-classes", "format": fmt, "shape": what,
                                       "values": list(map(repr, combo))})
     # very long str fields (still one line): the length is just another point of "all str fields"
-    for fmt in ("json", "csv", "tsv"):
-        cls = make_cls(fmt, ["int", "str"], name="Long")
-        for ln in (65536, 131072, 131073, 400000):
+    # (ascending, then descending, the classes taking turns: whatever a class remembers about an earlier long line
+    # of its own or of another class must not matter)
+    long_classes = {fmt: make_cls(fmt, ["int", "str"], name="Long") for fmt in ("json", "csv", "tsv")}
+    for late in ("csv", "tsv"):     # classes whose FIRST long line comes after other classes have seen longer ones
+        long_classes[late + "-late"] = make_cls(late, ["int", "str"], name="LongLate")
+    for fmt, ln in [(f_, l_) for l_ in (65536, 131072, 131073, 400000) for f_ in ("json", "csv", "tsv")] + \
+                   [(f_, l_) for l_ in (400000, 131073, 300000, 131072) for f_ in ("tsv", "csv", "json")] + \
+                   [("csv-late", 200000), ("csv", 400000), ("tsv-late", 150000), ("tsv", 400000), ("csv", 300000)]:
+        cls = long_classes[fmt]
+        fmt = fmt.split("-")[0]
+        if True:
             for ch in ("x", ","):
                 n += 1
                 rec = cls(ln, ch * ln)
